@@ -1362,7 +1362,7 @@ namespace xsimd
                     batch_type x = select(inf_result, constants::nan<batch_type>(), a);
                     batch_type q = abs(x);
 #ifndef XSIMD_NO_INFINITIES
-                    inf_result = (q == constants::infinity<batch_type>());
+                    inf_result = (q == constants::infinity<batch_type>()) || inf_result;
 #endif
                     auto test = (a < batch_type(-34.));
                     batch_type r = constants::nan<batch_type>();
@@ -1370,7 +1370,7 @@ namespace xsimd
                     {
                         r = large_negative(q);
                         if (all(test))
-                            return select(inf_result, constants::nan<batch_type>(), r);
+                            return select(a == constants::minusinfinity<batch_type>(), constants::nan<batch_type>(), select(inf_result, constants::infinity<batch_type>(), r));
                     }
                     // lanes handled by large_negative must not drive the recurrences of other()
                     batch_type r1 = other(select(test, batch_type(2.), a));
